@@ -66,6 +66,18 @@ def records_for(inst):
             # the public factory selects the class (function-list-only inversions always use the mapping formalism)
             inv = aa.Inversion(dataset=ds, linear_obj_list=objs, settings=st)
             r["cls"] = type(inv).__name__
+            # access-order history: for two thirds of the instances the quantities that CONSUME the curvature matrix
+            # (F + H, the reconstruction, the mapped data) are requested first; D and F must still be the normal equations
+            order = (sum(inst["d"]) + 3 * len(inst["u"]) + len(inst["objs"]) + ("mapping", "w_tilde", "factory").index(formalism)) % 3
+            r["order"] = ("DF-first", "reconstruction-first", "curvature_reg-first")[order]
+            if order:
+                try:
+                    if order == 1:
+                        inv.reconstruction, inv.mapped_reconstructed_data
+                    else:
+                        inv.curvature_reg_matrix
+                except Exception:  # singular systems etc. are not C04's business
+                    pass
             Bm = _to_int(np.asarray(inv.operated_mapping_matrix) * cs[None, :], 2.0 ** (-ke), "B")
             D = _to_int(np.asarray(inv.data_vector) * cs, 4.0 * 2.0 ** (-ke), "D")
             F = _to_int(np.asarray(inv.curvature_matrix) * cs[:, None] * cs[None, :], 4.0 * 4.0 ** (-ke), "F")
@@ -214,10 +226,13 @@ def run(ctx):
     n_small = 120 if quick else 5000
     n_large = 40 if quick else 1500
     small = [ic.random_instance(rng, H=7, W=7, interior=3) for _ in range(n_small)]
+    # object lists with three and four mappers (every pair of mappers has an off-diagonal block, adjacent in the list or not)
+    n_multi = 24 if quick else 600
+    small += [ic.random_instance(rng, H=7, W=7, interior=3, layouts=("mmm", "mfmm", "mmfm", "mmmm", "fmmm")) for _ in range(n_multi)]
     large = [ic.random_instance(rng, H=9, W=9, interior=5, max_sub=3,
                                 kshapes=((3, 3), (3, 5), (5, 3), (5, 5), (1, 5), (5, 1))) for _ in range(n_large)]
     ctx.bounds = {"tlc_instances": n_small, "frame": "7x7, unmasked subsets of the 3x3 interior", "kernel_shapes": "1x1,1x3,3x1,3x3,3x5,5x3 (signed and non-negative)",
-                  "object_lists": "m, mm, mf, fm, fmf, f; sub-size 1..2; meshes 3x3,3x4,4x3", "larger_instances": n_large,
+                  "object_lists": "m, mm, mf, fm, fmf, f (+ mmm, mfmm, mmfm, mmmm, fmmm); sub-size 1..2; meshes 3x3,3x4,4x3; D/F read first, after the reconstruction, or after curvature_reg_matrix", "larger_instances": n_large,
                   "larger": "9x9 frame, up to 25 unmasked pixels, kernels up to 5x5, sub-size up to 3"}
     groups = [small[k : k + 8] for k in range(0, len(small), 8)] + [large[k : k + 4] for k in range(0, len(large), 4)]
     res = core.pmap(_many, groups)
